@@ -45,6 +45,12 @@ func (vc *VC) modSetOf(spec *FuncSpec, pre *SpecEnv) modSet {
 		}
 	}
 	for _, m := range spec.Modifies {
+		if isStreamMod(m) {
+			for _, n := range streamArrs {
+				ms.get(n, ArraySort(SInt, SInt)).whole = true
+			}
+			continue
+		}
 		switch m.K {
 		case "sel":
 			if tn := pre.typeNameOf(m.X); tn != nil {
